@@ -440,7 +440,13 @@ static void run_C13(const Args &a, long cs) {
 	int ncorr = cs % 7 == 0 ? 0 : (r.coin(0.25) ? 2 : 1);
 	for (int q = 0; q < ncorr; q++) {
 		int d = (int)r.below(p.nd);
-		switch (r.below(24)) {
+		switch (r.below(26)) {
+		case 24: case 25: { // valid but ill-posed: a handful of data points, a monotonic dimension and a vanishing penalty (penalty order above the order) or zero smoothing there:
+			// the normal equations are singular. Fitting must still complete or throw - the watchdog of the driver reports a fit that does neither.
+			monodim = (uint32_t)r.below(p.nd); size_t keep = 3 + r.below(6); while (idx.size() > keep) { size_t k2 = r.below(idx.size()); idx.erase(idx.begin() + k2); if (k2 < w.size()) w.erase(w.begin() + k2); if (k2 < p.y.size()) p.y.erase(p.y.begin() + k2); }
+			if (por.size() == (size_t)p.nd && monodim < por.size() && monodim < ord.size()) por[monodim] = ord[monodim] + 1 + (uint32_t)r.below(3); if (lam.size() == (size_t)p.nd && r.coin(0.5)) lam[(size_t)r.below(p.nd)] = r.coin(0.5) ? 0.0 : 1e-10;
+			if (r.coin(0.3)) for (auto &ww : w) if (r.coin(0.3)) ww = 0; // some zero weights as well
+			applied.push_back("ill-posed:few-points+monotonic+vanishing-penalty"); break; }
 		case 22: if (d < (int)kn.size() && kn[d].size() >= 4) { // a NaN (or infinity) hides an out-of-order knot from a comparison-based test for sortedness
 				size_t i = 1 + r.below(kn[d].size() - 3); double sp[] = {NAN, NAN, INFINITY, -INFINITY}; double v = sp[r.below(4)]; std::swap(kn[d][i + 1], kn[d][i - 1]); kn[d][i] = v; must_reject = true; applied.push_back("knots-unsorted-behind-a-non-finite-value"); } break;
 		case 23: if (d < (int)kn.size() && kn[d].size() >= 3) { kn[d][r.below(kn[d].size())] = r.coin(0.5) ? NAN : (r.coin(0.5) ? INFINITY : -INFINITY); applied.push_back("non-finite-knot"); } break; // sortedness is judged below on the final state
